@@ -130,7 +130,8 @@ CLAIMED = {
   "correspondence on the real ClonePool/Runtime through a deterministic Go-finaliser hook + Lua-level logs under the real collector",
   "Theorems in Props/C18.lean (at-most-once per marking epoch, EXACTLY once by close / by the end of an isolating context, "
   "release once and after finalise, reverse marking order, re-mark resets order, killed contexts release without finalising) "
-  "hold for ALL event histories of Model.ClonePool/GcRuntime; never-finalised-while-reachable is proved `_partial` with a "
+  "hold for ALL event histories of Model.ClonePool/GcRuntime; isolating_context_owns_pool / isolates_iff (which limit subsets give a context its own pool), finalizers_run_inside_current_context, "
+  "releasable_always_marked_release, releasable_userdata_released_by_close, finalizer_error_does_not_skip, log_independent_of_raising; never-finalised-while-reachable is proved `_partial` with a "
   "`_counterexample` replayed on the code; two known findings remain (SetFinalizer throw when a value is marked in two "
   "contexts' pools; re-finalisation through a clone of an escaped value).  The models are tied to "
   "runtime/internal/luagc/clonepool.go, runtime.go, thread.go, runtimecontextmanager.go by per-op diffs on ~170k (quick) / "
@@ -202,23 +203,25 @@ CLAIMED = {
   "Props/C11.lean (25 theorems): error value identity, nearest handler only, the xpcall handler runs once at the raise point, the store after a catch is the store at the error and extends the "
   "store before, position prefixes in Spec.Lua. AddContext idempotence, value intactness and levels in the ErrRoute mirror of runtime/error.go, and its agreement with Spec.Lua on messages. "
   "Error sites of 21 classes at 13 position kinds, under pcall and xpcall nestings, are compared, with follow-up statements after each catch.",
-  "Coroutine boundaries are not exercised, because the reference interpreter has no coroutines. Errors inside message handlers and what a handler sees of errors in __close are excluded, as "
-  "the manual leaves them open. ErrRoute is hand-written; its tie to the code is the observed prefixes only. One recorded defect (line of errors raised in Go metamethods).", "6/C11, 14/C11"),
+  "Coroutines are part of the reference semantics (Spec.Lua threads: create/resume/yield/wrap/status/close/isyieldable); Errors inside message handlers and what a handler sees of errors in __close are excluded, as "
+  "the manual leaves them open. ErrRoute is hand-written; its tie to the code is the observed prefixes only. The line of errors raised in Go metamethods is repaired (8386b5a, fb7d6c3); no finding left.", "6/C11, 14/C11"),
  "C17": ("proof",
   "Lean 4 models of lib/stringlib pack/unpack/packsize and of %q with round-trip theorems by induction over format options; spec of Lua 5.4 %q/reader/printf; level A+B correspondence through compiled Lua",
   "Props/C17.lean: unpack_pack for all format strings and values (hypotheses: pack succeeded, values stored exactly, every X followed by a sized option), packsize_eq_length, "
   "malformed_format_error(+_unpack), pack_rejects_overflow, sign_extension; q_roundtrip_string / _int / _float in full for the Lua 5.4 %q definition and an independently written Lua reader; "
-  "tonumber_tostring_int. About golua's own %q text only q_roundtrip_string_golua_partial (ASCII) and q_roundtrip_int_golua_partial (not mininteger) hold; 5 _counterexample theorems state "
-  "what is false today. The models are tied to the code by byte-exact correspondence on ~238k cases per quick run; 16 recorded defect families surface as KNOWN-FINDING.",
+  "tonumber_tostring_int; after the 13 repairs of lib/stringlib (afdc818..404ed92) the same round trips hold for golua's own %q text: q_roundtrip_string_golua and q_roundtrip_int_golua in full, "
+  "q_roundtrip_float_golua_partial (the hexadecimal float text is Go's FormatFloat, a parameter checked by reading back); pack_rejects_long_string, packsize_fits. The models are tied to the code by "
+  "byte-exact correspondence on ~238k cases per quick run incl. float bit patterns; four recorded findings remain, all in Go-fmt-backed flag combinations of %d/%x/%o (sign with precision 0, # with zero padding, # on zero).",
   "Trusted: Lean kernel; unicode.IsPrint and strconv.FormatFloat (parameters of Model.Quote, exported per case / checked by reading back); budgets of pack/unpack not modelled; "
   "string<->number coercions of pack arguments not modelled; float directives (%e %f %g %a) not checked.", "6/C17, 14/C17"),
  "C13": ("proof",
   "Lean 4 model of runtime/marshal.go's byte format with unmarshal(marshal c) = c by induction over nested prototypes and a totality theorem; prototype tree exported through a verif hook and compared byte-for-byte; Go-only behavioural leg; damaged dumps in a limited child process",
   "Props/C13.lean: unmarshal_marshal(+_append), load_marshal, marshal_deterministic (injectivity), marshal_unmarshal_image, unmarshal_total (reader total on every byte string, fuel never "
-  "exhausted, strict consumption); counterexamples unmarshal_alloc_unbounded and unmarshal_noncanonical. Observational equivalence of f and load(string.dump(f)) (results, errors with line "
+  "exhausted, strict consumption), unmarshal_alloc_bounded (no size field is allocated before the bytes it announces are present), unmarshal_rejects_truncated, refactor_preserves_consts (Model.Refactor: RefactorCodeConsts keeps "
+  "every instruction's constant up to renumbering). Observational equivalence of f and load(string.dump(f)) (results, errors with line "
   "info), re-dump equality and determinism are checked by execution only (correspondence), on generated chunks x 7 argument tuples.",
-  "Trusted: Lean kernel; the VM (the loaded function is run, not modelled); budgets not modelled; RefactorCodeConsts is exercised (its output is what is exported and dumped) but has no "
-  "theorem of its own; strip=true is ignored by golua and not exercised. Three recorded defects (allocation before validation, negative upvalue count, truncated string accepted).", "6/C13, 14/C13"),
+  "Trusted: Lean kernel; the VM (the loaded function is run, not modelled); budgets not modelled; strip=true is ignored by golua and not "
+  "exercised. The five defects found (allocation before validation, negative upvalue count, truncated string accepted, blanket recover, wrong error variable in dump) are repaired; no finding left.", "6/C13, 14/C13"),
  "C04": ("proof",
   "Lean 4 theorems over the REGENERATED opcode field encoders (92 functions of code/opcodes.go + instructions.go, Go->Lean on every run) and over a limit-check model fed by a regenerated panic-site table + crash search (source texts, size-parameterised templates in child processes, library calls) and limit correspondence",
   "Props/C04.lean (35 obligations): encode_decode_roundtrip_type0..7/4a/4b (every getter returns exactly the written argument when it is in range, whatever the other fields: round trip and no "
